@@ -739,6 +739,16 @@ func init() {
 				ex.finish(st, "panic", "use after free (sha1.Sum of a freed buffer)", pos)
 				return false
 			}
+			if len(st.threads) > 1 && !st.threads[st.cur].hashing {
+				// a long operation: other goroutines may run between its start and its end;
+				// the buffer is re-validated at the end (a free during the hash is a fault)
+				st.threads[st.cur].hashing = true
+				st.top().ip--
+				return true
+			}
+			if len(st.threads) > 1 {
+				st.threads[st.cur].hashing = false
+			}
 			setRes(st, in, ArrV{ex.sha1Of(st, s), 20, 8})
 			return true
 		},
